@@ -813,11 +813,21 @@ pub fn gen_wide(rng: &mut Rng, n: usize) -> String {
 
 /// many distinct long string literals (the literal report has to carry all of them)
 pub fn gen_many_literals(rng: &mut Rng, n: usize) -> String {
-    let mut s = String::from("function lits(a, b) {\n  const all = [\n");
+    let mut s = String::from("function lits(a, b) {\n");
+    // named literals (assigned to an identifier) whose name order runs against their line order, ...
+    let named = if n <= 1000 { n / 3 } else { 0 };
+    for i in 0..named {
+        s.push_str(&format!("  const name{:04} = 'named literal {:04} with salt {:06}';\n", named - i, i, rng.below(1_000_000)));
+        if i % 3 == 0 {
+            s.push_str(&format!("  o.p{} = 'property literal {:04} of the report';\n", i, i));
+        }
+    }
+    // ... and unnamed ones
+    s.push_str("  const all = [\n");
     for i in 0..n {
         s.push_str(&format!("    'literal number {:04} with salt {:06}',\n", i, rng.below(1_000_000)));
     }
-    s.push_str("  ];\n  return all.join(a + b);\n}\nmodule.exports = { lits };\n");
+    s.push_str("  ];\n  return all.join(a + b);\n}\nvar o = {};\nmodule.exports = { lits };\n");
     s
 }
 
